@@ -61,20 +61,25 @@ def classify_class(src, rc, fmt):
     return "unf"
 
 
-def make_class_files(unc, root, enc=None):
+def make_class_files(unc, root, enc=None, extra_cfg=None, extra_files=None):
     """-> (cfg path, {class: (src, fmt)}) ; raises if a class does not behave as named.
     enc: None (ASCII) or a Python codec with BOM ("utf-16"): the same texts in that encoding
     (classes that depend on a single differing byte are dropped)."""
     os.makedirs(root, exist_ok=True)
     cfg = os.path.join(root, "drv.cfg")
-    open(cfg, "wb").write(CFG_TEXT)
+    open(cfg, "wb").write(CFG_TEXT + (extra_cfg or b""))
+    for n_, b_ in (extra_files or {}).items():
+        open(os.path.join(root, n_), "wb").write(b_)
     out = {}
     for c, src in CLASS_SRC.items():
-        if enc:
-            if c in ("last", "first"):
+        if enc or extra_cfg:
+            if c in ("last", "first") or (extra_cfg and c == "empty"):
                 continue
-            if src and c != "bad":
+            if src and c != "bad" and enc:
                 src = src.decode().encode(enc)
+        if extra_cfg and c == "fmt":
+            # the configuration adds text of its own: the formatted class is what a first run makes of the unformatted file
+            rc0, src = ref_format(unc, cfg, "probe.c", CLASS_SRC["unf"], cwd=root)
         rc, fmt = ref_format(unc, cfg, "probe.c", src, cwd=root)
         got = classify_class(src, rc, fmt)
         if got != c:
